@@ -31,7 +31,7 @@ type Val struct {
 	// UnsafeFmt: the value has a classification of its own, but under an outermost Unsafe() that classification is
 	// bypassed and the characters are exactly what fmt prints for the bare value
 	UnsafeFmt bool
-	WrapOnly bool // own classification only through Safe()/Unsafe() wrappers and SafeValue types (no redactable, SafeFormatter, SafeMessager inside)
+	WrapOnly  bool // own classification only through Safe()/Unsafe() wrappers and SafeValue types (no redactable, SafeFormatter, SafeMessager inside)
 }
 
 // secrets
@@ -151,6 +151,9 @@ func (f safeFmtT) SafeFormat(p redact.SafePrinter, verb rune) {
 	p.SafeRune('=')
 	p.UnsafeString(f.sec)
 }
+
+// sharedMarkerRunes: one slice for both instantiations (%p prints its address)
+var sharedMarkerRunes = []rune{0x2039, 'a', 0x203a}
 
 func sv(name string, fmtOK bool, mk func(v int) interface{}) Val {
 	return Val{Name: name, Mk: mk, Fmt: fmtOK, Passive: true}
@@ -491,6 +494,17 @@ func universe() []Val {
 	add(sv("SafeString", true, func(v int) interface{} { return redact.SafeString("safe str") }))
 	add(sv("SafeInt", true, func(v int) interface{} { return redact.SafeInt(-5) }))
 	add(sv("SafeRune", true, func(v int) interface{} { return redact.SafeRune('☃') }))
+	// safe integers whose VALUE is a marker code point (%c, %q, %#U print the character itself)
+	add(sv("SafeRune(start marker)", true, func(v int) interface{} { return redact.SafeRune(0x2039) }))
+	add(sv("SafeInt(end marker)", true, func(v int) interface{} { return redact.SafeInt(0x203a) }))
+	add(sv("SafeUint(start marker)", true, func(v int) interface{} { return redact.SafeUint(0x2039) }))
+	add(sv("struct{SafeRune end marker; unsafe}", true, func(v int) interface{} {
+		return struct {
+			R redact.SafeRune
+			U string
+		}{0x203a, secPlain[v]}
+	}))
+	add(sv("rune start/end marker", true, func(v int) interface{} { return [2]rune{0x2039, 0x203a}[v] }))
 	add(sv("[]SafeString", true, func(v int) interface{} { return []redact.SafeString{"a", "b\nc"} }))
 	add(sv("struct{safeT;unsafe}", true, func(v int) interface{} {
 		return struct {
@@ -514,6 +528,8 @@ func universe() []Val {
 	add(ow("Safe(Stringer)", func(v int) interface{} { return redact.Safe(strT{"pubstr"}) }))
 	add(ow("Safe(err)", func(v int) interface{} { return redact.Safe(errT{"puberr"}) }))
 	add(ow("Safe(nil)", func(v int) interface{} { return redact.Safe(nil) }))
+	add(ow("Safe(int = start marker)", func(v int) interface{} { return redact.Safe(0x2039) }))
+	add(ow("Safe([]rune with both markers)", func(v int) interface{} { return redact.Safe(sharedMarkerRunes) }))
 	add(ow("Unsafe(safeT)", func(v int) interface{} { return redact.Unsafe(safeT(secPlain[v])) }))
 	add(ow("Unsafe(Safe(str))", func(v int) interface{} { return redact.Unsafe(redact.Safe(secStr[v])) }))
 	add(ow("Safe(Unsafe(str))", func(v int) interface{} { return redact.Safe(redact.Unsafe("pub")) }))
@@ -527,6 +543,14 @@ func universe() []Val {
 	}))
 	add(o("RedactableString(plain)", func(v int) interface{} { return redact.RedactableString("just safe") }))
 	add(o("RedactableBytes", func(v int) interface{} { return redact.RedactableBytes(mStart + secPlain[v] + mEnd + "tail") }))
+	// redactables whose last bytes are a truncated / invalid UTF-8 sequence (the end-of-output guard applies to
+	// copied bytes too, on every route)
+	add(o("RedactableString ending in a truncated marker", func(v int) interface{} {
+		return redact.RedactableString("id=" + mStart + secPlain[v] + mEnd + "\xe2\x80")
+	}))
+	add(o("RedactableBytes ending in an invalid byte", func(v int) interface{} {
+		return redact.RedactableBytes(mStart + secPlain[v] + mEnd + "t\xff")
+	}))
 	add(o("RedactableString(empty)", func(v int) interface{} { return redact.RedactableString("") }))
 	add(o("[]RedactableString", func(v int) interface{} {
 		return []redact.RedactableString{redact.RedactableString(mStart + secPlain[v] + mEnd), "s"}
